@@ -1,4 +1,5 @@
 import QuiverModel.Lemmas.Packaging.Bridge
+import QuiverModel.Theorems.C10
 /-
 C10 × C08 — what `tree_shake` does to the run-time compatibility verdicts, for every program.
 
@@ -9,16 +10,21 @@ This file discharges its core from C08 / C09's model of the type relation (impor
     original ones (`QM.Types.Embeds`), by the sweep's rank tables read backwards — every program, entry;
   * `shake_keeps_assignability` / `shake_keeps_overlap`: hence `is_compatible` / `types_overlap` give the
     same verdict on any two kept type ids before and after shaking (`C08.compat_rename`);
-  * `shake_keeps_tag_verdict`: hence a kept pattern accepts a tag after shaking exactly when it did before
-    — **provided the tag's index entry after shaking is the image of its index entry before**
-    (`C08.rename_invariant`; the two `tagType` hypotheses).
+  * `shake_keeps_tag_verdict` (`C08.rename_invariant`, two `tagType` hypotheses) and, with b-c09's
+    `C08.rename_invariant_of_embeds`, `shake_keeps_every_kept_tag_verdict`: a kept pattern accepts a tag that has
+    an index entry after shaking exactly when the original pattern accepted the original tag;
+  * `tagType_of_present`: `Prog.tagPresent` (my side) is "the index has an entry" (C08's side);
+  * `TablesComputed` (the run-time tables ARE what C08's model of `compute_type_compatibility` /
+    `compute_param_compatibility` yields), `PresenceKept` (a kept tag with an entry keeps one) ⇒
+    **`treeShake_tablesAgree`** ⇒ **`treeShake_preserves_behaviour_computed`**: (T1) with no hypothesis that
+    relates the tables of the two programs to each other. `shake_resources` discharges the resource clause.
 
-That proviso is the precise form of the F13 exception: a tag whose type entry the sweep drops has
+`PresenceKept` is the precise form of the F13 exception: a tag whose type entry the sweep drops has
 `tagType = none` afterwards (`C08.rename_loses_tag_without_entry`: accepted by nothing), which is what
 `C10.legacy_shake_loses_process_entry` exhibits for the pre-5a04882 sweep and what `Prog.tagPresent`
-exempts in `IsRenaming`. What is NOT proved here (nor in C08): that `TypeIndex.build` commutes with the
-embedding, i.e. that for every kept tag the proviso holds (it needs: first occurrences are preserved by an
-order-preserving sub-table of a duplicate-free type table) — see notes/C10.md and notes/C08.md.
+exempts in `IsRenaming`. It is NOT true of every bytecode (a `Type::Integer` entry that nothing kept refers
+to is dropped, after which an integer is tested by the fallback rule) — it is checked per instance by the
+validator; see notes/C10.md.
 -/
 namespace C10
 open QM QM.Packaging
@@ -167,5 +173,386 @@ theorem shake_keeps_every_kept_tag_verdict (ι : String → Nat) {P : Prog} {e :
       have hs' : out.prog.resources[rid]? = some s := by simpa using hs
       have hmem : s ∈ P.resources.toList := hresP s (List.mem_of_getElem? hs)
       simp only [toCInput, List.getElem?_map, backResource, hs', nameIdx_get hmem, Option.map_some]
+
+/-- my run-time tag as C08's concrete tag -/
+def tagTo : Tag → CTag
+  | .int => .integer
+  | .bin => .binary
+  | .ref => .reference
+  | .tuple t => .tuple t
+  | .fn f => .function f
+  | .builtin b => .builtin b
+  | .proc f => .process f
+  | .res r => .resource r
+
+structure TablesComputed (ι : String → Nat) (fuel : Nat) (P : Prog) : Prop where
+  compat : ∀ (f : Nat) (F : Fn), P.fns[f]? = some F → ∀ t, t ∈ isTypeOps F.instrs → ∀ c,
+    tagAccepts (toCInput ι P) (TypeIndex.build (toTable ι P)) fuel t (tagTo c) = some (P.isCompat t c)
+  fparam : ∀ (f : Nat) (F : Fn) (p r v : Nat), P.fns[f]? = some F → P.types[F.typeId]? = some (.callable p r v) → ∀ c,
+    tagAccepts (toCInput ι P) (TypeIndex.build (toTable ι P)) fuel p (tagTo c) = some (P.msgCompatFn f c)
+  bparam : ∀ (b : Nat) (B : BuiltinInfo), P.builtins[b]? = some B → ∀ c,
+    tagAccepts (toCInput ι P) (TypeIndex.build (toTable ι P)) fuel B.paramType (tagTo c) =
+      some (P.msgCompatBuiltin b c)
+
+def EntriesKept (ι : String → Nat) (ρ : Ren) (P P' : Prog) : Prop :=
+  ∀ c c', renameTag ρ c = some c' → P.tagPresent c = true →
+    ∃ id', tagType (toCInput ι P') (TypeIndex.build (toTable ι P')) (tagTo c') = some id'
+
+
+/-- the ids of a tag that C08's index insists on being inside the tables -/
+def TagInRange (P : Prog) : Tag → Prop
+  | .tuple t => t < P.tuples.size
+  | .fn f => f < P.fns.size
+  | _ => True
+
+/-- **`Prog.tagPresent` is C08's "the index has an entry"**: a tag that is present (and whose ids are in
+    range) has a tag type in `TypeIndex.build` of the converted tables. -/
+theorem tagType_of_present (ι : String → Nat) (P : Prog) (c : Tag) (hp : P.tagPresent c = true)
+    (hr : TagInRange P c) :
+    ∃ id, tagType (toCInput ι P) (TypeIndex.build (toTable ι P)) (tagTo c) = some id := by
+  cases c with
+  | int =>
+    obtain ⟨n, τ, hn, hτ⟩ := any_eq_get (p := (· == Ty.int)) hp
+    have : τ = Ty.int := by simpa using hτ
+    subst this
+    simp only [tagTo, tagType, TypeIndex.build, QM.Types.buildFrom_integer]
+    exact QM.Types.build_prim_complete QM.Types.isIntTy (toTable ι P) n _ (toTable_get ι hn) rfl
+  | bin =>
+    obtain ⟨n, τ, hn, hτ⟩ := any_eq_get (p := (· == Ty.bin)) hp
+    have : τ = Ty.bin := by simpa using hτ
+    subst this
+    simp only [tagTo, tagType, TypeIndex.build, QM.Types.buildFrom_binary]
+    exact QM.Types.build_prim_complete QM.Types.isBinTy (toTable ι P) n _ (toTable_get ι hn) rfl
+  | ref =>
+    obtain ⟨n, τ, hn, hτ⟩ := any_eq_get (p := (· == Ty.ref)) hp
+    have : τ = Ty.ref := by simpa using hτ
+    subst this
+    simp only [tagTo, tagType, TypeIndex.build, QM.Types.buildFrom_reference]
+    exact QM.Types.build_prim_complete QM.Types.isRefTy (toTable ι P) n _ (toTable_get ι hn) rfl
+  | tuple t =>
+    obtain ⟨n, τ, hn, hτ⟩ := any_eq_get (p := (· == Ty.tuple t)) hp
+    have : τ = Ty.tuple t := by simpa using hτ
+    subst this
+    simp only [tagTo, tagType, TypeIndex.build, QM.Types.buildFrom_tuple]
+    refine QM.Types.build_assoc_complete (QM.Types.tupleKey (toTable ι P)) (toTable ι P) t n _ (toTable_get ι hn) ?_
+    have hlt : t < (toTable ι P).tuples.length := by simpa [toTable, TagInRange] using hr
+    simp [tyTo, QM.Types.tupleKey, hlt]
+  | fn f =>
+    have hlt : f < P.fns.toList.length := by simpa [TagInRange] using hr
+    simp only [tagTo, tagType, toCInput, List.getElem?_map, List.getElem?_eq_getElem hlt, Option.map_some]
+    exact ⟨_, rfl⟩
+  | builtin b =>
+    simp only [Prog.tagPresent] at hp
+    cases hB : P.builtins[b]? with
+    | none => rw [hB] at hp; cases hp
+    | some B =>
+      rw [hB] at hp
+      dsimp only at hp
+      obtain ⟨n, τ, hn, hτ⟩ := any_eq_get hp
+      cases τ with
+      | callable p r v =>
+        simp only [Bool.and_eq_true, beq_iff_eq] at hτ
+        obtain ⟨⟨rfl, rfl⟩, hv⟩ := hτ
+        have hBl : P.builtins.toList[b]? = some B := by simpa using hB
+        simp only [tagTo, tagType, toCInput, List.getElem?_map, hBl, Option.map_some, Option.bind_some,
+          TypeIndex.build, QM.Types.buildFrom_callable]
+        refine QM.Types.build_assoc_complete (QM.Types.callKey (toTable ι P)) (toTable ι P) _ n _ (toTable_get ι hn) ?_
+        simp only [Prog.isNeverTy] at hv
+        split at hv
+        · rename_i hu
+          simp [tyTo, QM.Types.callKey, toTable_get ι hu, QM.Types.isNeverTy]
+        · cases hv
+      | _ => cases hτ
+  | proc f =>
+    simp only [Prog.tagPresent] at hp
+    cases hF : P.fns[f]? with
+    | none => rw [hF] at hp; cases hp
+    | some F =>
+      rw [hF] at hp
+      dsimp only at hp
+      have hFl : P.fns.toList[f]? = some F := by simpa using hF
+      simp only [tagTo, tagType, toCInput, List.getElem?_map, hFl, Option.map_some, Option.bind_some,
+        TypeIndex.build, QM.Types.buildFrom_process]
+      cases hty : P.types[F.typeId]? with
+      | none =>
+        rw [hty] at hp
+        obtain ⟨n, τ, hn, hτ⟩ := any_eq_get (p := (· == Ty.process none none)) hp
+        have : τ = Ty.process none none := by simpa using hτ
+        subst this
+        have hx : (toTable ι P).types[F.typeId]? = none := by
+          have : P.types.toList[F.typeId]? = none := by simpa using hty
+          simp [toTable, List.getElem?_map, this]
+        simp only [QM.Types.extractFn, hx]
+        exact QM.Types.build_assoc_complete QM.Types.procKey (toTable ι P) _ n _ (toTable_get ι hn) rfl
+      | some σ =>
+        rw [hty] at hp
+        have hx := toTable_get ι hty
+        cases σ with
+        | callable p r v =>
+          obtain ⟨n, τ, hn, hτ⟩ := any_eq_get (p := (· == Ty.process (some v) (some r))) hp
+          have : τ = Ty.process (some v) (some r) := by simpa using hτ
+          subst this
+          simp only [QM.Types.extractFn, hx, tyTo]
+          exact QM.Types.build_assoc_complete QM.Types.procKey (toTable ι P) _ n _ (toTable_get ι hn) rfl
+        | _ =>
+          obtain ⟨n, τ, hn, hτ⟩ := any_eq_get (p := (· == Ty.process none none)) hp
+          have : τ = Ty.process none none := by simpa using hτ
+          subst this
+          simp only [QM.Types.extractFn, hx, tyTo]
+          exact QM.Types.build_assoc_complete QM.Types.procKey (toTable ι P) _ n _ (toTable_get ι hn) rfl
+  | res r =>
+    simp only [Prog.tagPresent] at hp
+    cases hR : P.resources[r]? with
+    | none => rw [hR] at hp; cases hp
+    | some nm =>
+      rw [hR] at hp
+      dsimp only at hp
+      obtain ⟨n, τ, hn, hτ⟩ := any_eq_get (p := (· == Ty.resource nm)) hp
+      have : τ = Ty.resource nm := by simpa using hτ
+      subst this
+      have hRl : P.resources.toList[r]? = some nm := by simpa using hR
+      simp only [tagTo, tagType, toCInput, List.getElem?_map, hRl, Option.map_some, Option.bind_some,
+        TypeIndex.build, QM.Types.buildFrom_resource]
+      exact QM.Types.build_assoc_complete QM.Types.resKey (toTable ι P) _ n _ (toTable_get ι hn) rfl
+
+
+/-- the resource clause of `TablesAgree`, from the definition of the sweep's resource map -/
+theorem shake_resources {P : Prog} {e : Nat} {out : ShakeOut} (h : treeShake P e = some out) :
+    ∀ r r', out.ren.resource.get r = some r' →
+      ∃ n, P.resources[r]? = some n ∧ out.prog.resources[r']? = some n := by
+  intro r r' hr
+  have hren := (treeShake_keeps_everything_reachable h).1
+  have h0 := h
+  unfold treeShake treeShakeWith at h0
+  split at h0
+  · cases h0
+  · rename_i m hm
+    obtain ⟨_, _, _, _, _, _, _, _, hrEq⟩ := sweep_fns_builtins h0
+    have hmarks : out.marks = m := by
+      simp only [sweep] at h0
+      split at h0
+      · split at h0
+        · cases h0
+        · cases h0; rfl
+      · cases h0
+    rw [hren, hmarks] at hr
+    let g : Nat → Option Nat := fun i =>
+      match P.resources[i]? with
+      | some n => (sortStrAsc m.resources).findIdx? (· == n)
+      | none => none
+    have hfun : (shakeRen P m).resource =
+        (List.range P.resources.size).filterMap (fun i => (g i).map (fun j => (i, j))) := by
+      simp only [shakeRen]
+      congr 1
+      funext i
+      simp only [g]
+      cases P.resources[i]? <;> rfl
+    have hg := lookup_filterMap_pair (g := g) _ (show List.lookup r _ = some r' by rw [← hfun]; exact hr)
+    simp only [g] at hg
+    cases hn : P.resources[r]? with
+    | none => rw [hn] at hg; cases hg
+    | some n =>
+      rw [hn] at hg
+      simp only at hg
+      obtain ⟨hlt, hp, _⟩ := List.findIdx?_eq_some_iff_getElem.mp hg
+      have : (sortStrAsc m.resources)[r'] = n := by simpa using hp
+      refine ⟨n, rfl, ?_⟩
+      rw [hrEq]
+      simp [List.getElem?_eq_getElem hlt, this]
+
+
+theorem tag_back {P : Prog} {out : ShakeOut} (hren : out.ren = shakeRen P out.marks)
+    (hres : ∀ r r', out.ren.resource.get r = some r' →
+      ∃ n, P.resources[r]? = some n ∧ out.prog.resources[r']? = some n)
+    (hnodupR : P.resources.toList.Nodup) {c c' : Tag} (hc : renameTag out.ren c = some c') :
+    (tagTo c').mapIds (backMap (sortAsc out.marks.tuples) P.tuples.size) (backFn P out) (backBuiltin P out)
+      (backResource P out) = tagTo c := by
+  have htu : out.ren.tuple = rankMap (sortAsc out.marks.tuples) := by rw [hren]; rfl
+  have hfn : out.ren.fn = rankMap (sortAsc out.marks.fns) := by rw [hren]; rfl
+  have hbi : out.ren.builtin = rankMap (sortAsc out.marks.builtins) := by rw [hren]; rfl
+  cases c with
+  | int => simp only [renameTag, Option.some.injEq] at hc; subst hc; rfl
+  | bin => simp only [renameTag, Option.some.injEq] at hc; subst hc; rfl
+  | ref => simp only [renameTag, Option.some.injEq] at hc; subst hc; rfl
+  | tuple t =>
+    simp only [renameTag, Option.map_eq_some_iff] at hc
+    obtain ⟨t', ht', rfl⟩ := hc
+    rw [htu] at ht'
+    simp only [tagTo, CTag.mapIds, backMap_of_rank ht']
+  | fn f =>
+    simp only [renameTag, Option.map_eq_some_iff] at hc
+    obtain ⟨f', hf', rfl⟩ := hc
+    rw [hfn] at hf'
+    simp only [tagTo, CTag.mapIds, backFn, backMap_of_rank hf']
+  | builtin b =>
+    simp only [renameTag, Option.map_eq_some_iff] at hc
+    obtain ⟨b', hb', rfl⟩ := hc
+    rw [hbi] at hb'
+    simp only [tagTo, CTag.mapIds, backBuiltin, backMap_of_rank hb']
+  | proc f =>
+    simp only [renameTag, Option.map_eq_some_iff] at hc
+    obtain ⟨f', hf', rfl⟩ := hc
+    rw [hfn] at hf'
+    simp only [tagTo, CTag.mapIds, backFn, backMap_of_rank hf']
+  | res r =>
+    simp only [renameTag, Option.map_eq_some_iff] at hc
+    obtain ⟨r', hr', rfl⟩ := hc
+    obtain ⟨n, h1, h2⟩ := hres r r' hr'
+    have h1' : P.resources.toList[r]? = some n := by simpa using h1
+    simp only [tagTo, CTag.mapIds, backResource, h2, nameIdx_of_get hnodupR h1']
+
+/-- **`TablesAgree` from the definition of the tables.** If the run-time tables of the original and of the
+    shaken program are the computed ones (`TablesComputed`: each row is what C08's model of
+    `compute_type_compatibility` / `compute_param_compatibility` yields, with enough fuel) and every tag
+    that has an index entry before shaking and whose ids are kept still has one afterwards
+    (`EntriesKept` — the exact complement of the F13 situation), then the tables agree through the sweep's
+    renaming. -/
+theorem treeShake_tablesAgree (ι : String → Nat) (fuel : Nat) {P P' : Prog} {e : Nat} {out : ShakeOut}
+    (h : treeShake P e = some out)
+    (hfns : P'.fns = out.prog.fns) (htuples : P'.tuples = out.prog.tuples)
+    (hbuiltins : P'.builtins = out.prog.builtins) (htypes : P'.types = out.prog.types)
+    (hresources : P'.resources = out.prog.resources)
+    (hnd : (toTable ι P).types.Nodup) (hnodupR : P.resources.toList.Nodup)
+    (hresP : ∀ n ∈ out.prog.resources.toList, n ∈ P.resources.toList)
+    (hcall : ∀ (f : Nat) (F : Fn), P.fns[f]? = some F → ∃ p r v, P.types[F.typeId]? = some (.callable p r v))
+    (hT : TablesComputed ι fuel P) (hT' : TablesComputed ι fuel P') (hK : EntriesKept ι out.ren P P') :
+    TablesAgree out.ren P P' := by
+  have hs := treeShake_structRenaming h
+  have hren := (treeShake_keeps_everything_reachable h).1
+  have hty : out.ren.type = rankMap (sortAsc out.marks.types) := by rw [hren]; rfl
+  have hcin : toCInput ι P' = toCInput ι out.prog := by
+    simp only [toCInput, toTable, hfns, htuples, hbuiltins, htypes, hresources]
+  have htab : toTable ι P' = toTable ι out.prog := by simp only [toTable, htuples, htypes]
+  have hres' := shake_resources h
+  have hres : ∀ r r', out.ren.resource.get r = some r' →
+      ∃ n, P.resources[r]? = some n ∧ P'.resources[r']? = some n := by
+    intro r r' hr; rw [hresources]; exact hres' r r' hr
+  -- the verdict on a kept pattern and a kept, present tag is the same before and after
+  have verdict : ∀ t t' c c', out.ren.type.get t = some t' → renameTag out.ren c = some c' →
+      P.tagPresent c = true →
+      tagAccepts (toCInput ι P) (TypeIndex.build (toTable ι P)) fuel t (tagTo c) =
+        tagAccepts (toCInput ι P') (TypeIndex.build (toTable ι P')) fuel t' (tagTo c') := by
+    intro t t' c c' ht hc hp
+    obtain ⟨id', hid⟩ := hK c c' hc hp
+    rw [hcin, htab] at hid ⊢
+    have := shake_keeps_every_kept_tag_verdict ι h hnd hresP fuel t' id' (tagTo c') hid
+    rw [hty] at ht
+    rw [backMap_of_rank ht, tag_back hren hres' hnodupR hc] at this
+    exact this
+  refine ⟨?_, ?_, ?_, hres⟩
+  · intro f f' F hf hF t ht t' ht' c c' hc hp
+    obtain ⟨F0, F', hF0, hF', _, hins, _⟩ := hs.fns f f' hf
+    rw [hF] at hF0; cases hF0
+    rw [← hfns] at hF'
+    have h1 := hT.compat f F hF t ht c
+    have h2 := hT'.compat f' F' hF' t' (isTypeOps_rename hins ht ht') c'
+    rw [verdict t t' c c' ht' hc hp, h2] at h1
+    exact (Option.some.inj h1).symm
+  · intro f f' hf c c' hc hp
+    obtain ⟨F, F', hF, hF', _, _, htid⟩ := hs.fns f f' hf
+    obtain ⟨p, r, v, hcal⟩ := hcall f F hF
+    obtain ⟨τ, τ', hτ, hτ', hrt⟩ := hs.types F.typeId F'.typeId htid
+    rw [hcal] at hτ; cases hτ
+    rw [← hfns] at hF'
+    rw [← htypes] at hτ'
+    simp only [renameTy] at hrt
+    split at hrt
+    · rename_i p' r' v' hp' _ _
+      cases hrt
+      have h1 := hT.fparam f F p r v hF hcal c
+      have h2 := hT'.fparam f' F' p' r' v' hF' hτ' c'
+      rw [verdict p p' c c' hp' hc hp, h2] at h1
+      exact (Option.some.inj h1).symm
+    · cases hrt
+  · intro b b' hb c c' hc hp
+    obtain ⟨B, B', hB, hB', _, hpt, _⟩ := hs.builtins b b' hb
+    rw [← hbuiltins] at hB'
+    have h1 := hT.bparam b B hB c
+    have h2 := hT'.bparam b' B' hB' c'
+    rw [verdict B.paramType B'.paramType c c' hpt hc hp, h2] at h1
+    exact (Option.some.inj h1).symm
+
+
+/-- `EntriesKept` holds outright for function tags: a kept function is a function of the shaken program. -/
+theorem entriesKept_fn (ι : String → Nat) {P P' : Prog} {e : Nat} {out : ShakeOut} (h : treeShake P e = some out)
+    (hfns : P'.fns = out.prog.fns) {f : Nat} {c' : Tag} (hc : renameTag out.ren (.fn f) = some c') :
+    ∃ id', tagType (toCInput ι P') (TypeIndex.build (toTable ι P')) (tagTo c') = some id' := by
+  simp only [renameTag, Option.map_eq_some_iff] at hc
+  obtain ⟨f', hf', rfl⟩ := hc
+  obtain ⟨F, F', _, hF', _⟩ := (treeShake_structRenaming h).fns f f' hf'
+  rw [← hfns] at hF'
+  have : P'.fns.toList[f']? = some F' := by simpa using hF'
+  simp only [tagTo, tagType, toCInput, List.getElem?_map, this, Option.map_some]
+  exact ⟨_, rfl⟩
+
+
+
+/-- **The F13 proviso in the model's own vocabulary**: every tag whose ids are kept and whose tag type has an
+    entry in the source type table still has one after the step. (False for the pre-5a04882 sweep:
+    `legacy_shake_loses_process_entry`.) -/
+def PresenceKept (ρ : Ren) (P P' : Prog) : Prop :=
+  ∀ c c', renameTag ρ c = some c' → P.tagPresent c = true → P'.tagPresent c' = true
+
+theorem entriesKept_of_presenceKept (ι : String → Nat) {P P' : Prog} {e : Nat} {out : ShakeOut}
+    (h : treeShake P e = some out) (hfns : P'.fns = out.prog.fns) (htuples : P'.tuples = out.prog.tuples)
+    (hK : PresenceKept out.ren P P') : EntriesKept ι out.ren P P' := by
+  intro c c' hc hp
+  refine tagType_of_present ι P' c' (hK c c' hc hp) ?_
+  have hs := treeShake_structRenaming h
+  cases c with
+  | tuple t =>
+    simp only [renameTag, Option.map_eq_some_iff] at hc
+    obtain ⟨t', ht', rfl⟩ := hc
+    obtain ⟨_, T', _, hT', _⟩ := hs.tuples t t' ht'
+    rw [← htuples] at hT'
+    simp only [TagInRange]
+    rcases Nat.lt_or_ge t' P'.tuples.size with h1 | h1
+    · exact h1
+    · rw [Array.getElem?_eq_none h1] at hT'; cases hT'
+  | fn f =>
+    simp only [renameTag, Option.map_eq_some_iff] at hc
+    obtain ⟨f', hf', rfl⟩ := hc
+    obtain ⟨_, F', _, hF', _⟩ := hs.fns f f' hf'
+    rw [← hfns] at hF'
+    simp only [TagInRange]
+    rcases Nat.lt_or_ge f' P'.fns.size with h1 | h1
+    · exact h1
+    · rw [Array.getElem?_eq_none h1] at hF'; cases hF'
+  | int => simp only [renameTag, Option.some.injEq] at hc; subst hc; trivial
+  | bin => simp only [renameTag, Option.some.injEq] at hc; subst hc; trivial
+  | ref => simp only [renameTag, Option.some.injEq] at hc; subst hc; trivial
+  | builtin b =>
+    simp only [renameTag, Option.map_eq_some_iff] at hc
+    obtain ⟨b', _, rfl⟩ := hc; trivial
+  | proc f =>
+    simp only [renameTag, Option.map_eq_some_iff] at hc
+    obtain ⟨f', _, rfl⟩ := hc; trivial
+  | res r =>
+    simp only [renameTag, Option.map_eq_some_iff] at hc
+    obtain ⟨r', _, rfl⟩ := hc; trivial
+
+/-- **(T1) without `TablesAgree`**: shaking preserves behaviour for all inputs and execution lengths, for every
+    program whose tables are the computed ones (`TablesComputed`, `CanonComputed`) and whose kept tags keep
+    their index entries (`PresenceKept`). The remaining hypotheses are well-formedness of the INPUT: its type
+    table and resource list are duplicate-free, every function's type is a callable, the resource names of
+    the shaken program occur in the original resource list. -/
+theorem treeShake_preserves_behaviour_computed (ι : String → Nat) (fuel : Nat) {P P' : Prog} {e : Nat}
+    {out : ShakeOut} (h : treeShake P e = some out)
+    (hfns : P'.fns = out.prog.fns) (hconsts : P'.consts = out.prog.consts) (htuples : P'.tuples = out.prog.tuples)
+    (hbuiltins : P'.builtins = out.prog.builtins) (htypes : P'.types = out.prog.types)
+    (hresources : P'.resources = out.prog.resources)
+    (hc : P.CanonComputed) (hc' : P'.CanonComputed)
+    (hnd : (toTable ι P).types.Nodup) (hnodupR : P.resources.toList.Nodup)
+    (hresP : ∀ n ∈ out.prog.resources.toList, n ∈ P.resources.toList)
+    (hcall : ∀ (f : Nat) (F : Fn), P.fns[f]? = some F → ∃ p r v, P.types[F.typeId]? = some (.callable p r v))
+    (hT : TablesComputed ι fuel P) (hT' : TablesComputed ι fuel P') (hK : PresenceKept out.ren P P')
+    {B B' : BuiltinSem} (hB : BuiltinsCommute out.ren B B') {a a' : Val} (ha : RelVal out.ren a a') {t : St}
+    (hrun : Steps P B (St.start e a) t) (hsafe : ∀ u, Steps P B (St.start e a) u → IsTypeSafe P u) :
+    ∃ t', Steps P' B' (St.start out.entry a') t' ∧ RelSt out.ren t t' :=
+  treeShake_preserves_behaviour h hfns hconsts htuples hbuiltins htypes hc hc'
+    (treeShake_tablesAgree ι fuel h hfns htuples hbuiltins htypes hresources hnd hnodupR hresP hcall hT hT'
+      (entriesKept_of_presenceKept ι h hfns htuples hK))
+    hB ha hrun hsafe
+
 
 end C10
